@@ -1,3 +1,66 @@
+EXPECTED_CALLS = [
+    "handleError: Send code",
+    "selfInspection: if len(runIds) == 0",
+    "selfInspection: handleError pb.SyncResponse_FAILURE",
+    "selfInspection: channel.RunId",
+    "selfInspection: if !slices.Contains(runIds, channelRunId) || runIds[0] != channelRunId",
+    "selfInspection: handleError pb.SyncResponse_CLEAR",
+    "Handle: channel.StartPoint",
+    "Handle: if followerRunId == \"\" || followerRunId == \"?\"",
+    "Handle: Send pb.SyncResponse_META",
+    "Handle: handleError pb.SyncResponse_FAULT",
+    "Handle: if inputRunIds[0] != followerRunId",
+    "Handle: handleError pb.SyncResponse_ERROR",
+    "Handle: if followerOffset-sp.Offset > 0",
+    "Handle: Send pb.SyncResponse_HANDOVER",
+    "sendData: if !rl.channel.IsValidOffset(Offset{RunId: reqSp.RunId, Offset: reqSp.Offset})",
+    "sendData: channel.IsValidOffset",
+    "sendData: channel.NewReader",
+    "sendData: handleError pb.SyncResponse_CLEAR",
+    "sendData: Send pb.SyncResponse_META",
+    "sendData: handleError pb.SyncResponse_FAULT",
+    "sendData: Send pb.SyncResponse_CONTINUE",
+    "sendData: handleError pb.SyncResponse_FAULT",
+    "sendData: Send pb.SyncResponse_CONTINUE",
+    "sendData: handleError pb.SyncResponse_FAULT",
+    "Run: channel.StartPoint",
+    "handleResp: if resp.GetCode() == pb.SyncResponse_FAILURE",
+    "handleResp: if resp.GetCode() == pb.SyncResponse_ERROR",
+    "handleResp: if resp.GetCode() == pb.SyncResponse_FAULT",
+    "handleResp: if resp.GetCode() == pb.SyncResponse_HANDOVER",
+    "handleResp: if resp.GetCode() == pb.SyncResponse_CLEAR",
+    "handleResp: if len(args) == 1",
+    "handleResp: channel.DelRunId",
+    "protoHandShake: handleResp/2",
+    "protoHandShake: handleResp/2",
+    "protoHandShake: if sp.RunId == \"\"",
+    "protoHandShake: handleResp/2",
+    "preSync: channel.StartPoint",
+    "preSync: if sp.IsInitial() || !sp.IsValid() || sp.RunId != leaderSp.RunId",
+    "preSync: if local != \"\" && local != leaderSp.RunId",
+    "preSync: channel.RunId",
+    "preSync: channel.DelRunId",
+    "preSync: channel.SetRunId",
+    "preSync: if gap > 0",
+    "preSync: if gap > 10*1024*1024",
+    "preSync: channel.DelRunId",
+    "preSync: channel.SetRunId",
+    "metaSync: handleResp/3",
+    "metaSync: handleResp/3",
+    "rdbSync: channel.DelRunId",
+    "rdbSync: channel.SetRunId",
+    "rdbSync: channel.NewRdbWriter",
+    "rdbSync: handleResp/2",
+    "aofSync: channel.StartPoint",
+    "aofSync: if left > sp.Offset && !sp.IsInitial()",
+    "aofSync: channel.DelRunId",
+    "aofSync: channel.SetRunId",
+    "aofSync: channel.NewAofWritter",
+    "aofSync: handleResp/2"
+]
+
+EXPECTED_CODES = ["CLEAR=3", "CONTINUE=1", "ERROR=11", "FAILURE=12", "FAULT=10", "HANDOVER=2", "META=0"]
+
 PROP = {
     "lean_modules": ["GunYu.Props.C16"],
     "audit_namespaces": ["GunYu.Props.C16"],
@@ -8,7 +71,7 @@ PROP = {
         "GunYu.Props.C16.unjoinable_discards",
         "GunYu.Props.C16.ahead_gets_handover",
     ],
-    "expected_facts": {},
+    "expected_facts": {"c16_gap_threshold": 10485760, "c16_codes": EXPECTED_CODES, "c16_calls": EXPECTED_CALLS},
     "harness": [{"name": "C16", "pkg": "./syncer/", "test": "TestVerifC16",
                  "timeout_quick": "10m", "timeout_thorough": "40m"}],
     "driver": "drv_C16",
@@ -29,7 +92,10 @@ PROP = {
             "untouched cache. distinct_nontrivial = distinct (backend, relation, outcome, #messages, leader shape) with at least two CONTINUE chunks",
     "trusted": ["fake gRPC transport c16Net (unbuffered in-order delivery, cut = every Recv/Send fails) in place of grpc-go",
                 "history oracle of the harness (two run ids differ at every offset) and its file parser for the disk backend"],
-    "assumptions": ["model tied by correspondence (hand-written transcription of syncer/replica.go, channel.go, pkg/store SetRunId/DelRunId/VerifyRunId, "
+    "assumptions": ["regenerated: preSync's gap threshold (Gen/ReplicaConsts.lean, used by the model); compared with expectation: response code numbers "
+                    "and the ordered list of channel calls / Sends / handleResp arities / guarding conditions of every ReplicaLeader and "
+                    "ReplicaFollower method (a change means the model has to be re-read)",
+                    "model tied by correspondence (hand-written transcription of syncer/replica.go, channel.go, pkg/store SetRunId/DelRunId/VerifyRunId, "
                     "memory_channel.go StartPoint/SetRunId/DelRunId)",
                     "a leader's cache is a faithful copy of the source's history (C05/C06/C08) and does not change during one follower session",
                     "cache contents at the abstraction of C05's Log: one contiguous byte range + optional snapshot per run id; segment rotation, "
